@@ -50,7 +50,8 @@ where
     let mut accumulated_slack = Probability::zero();
 
     Ok(probabilities.iter().map(move |probability_float| {
-        let left_cumulative = (cumulative_float * scale).as_() + accumulated_slack;
+        let left_cumulative =
+            scaled_cumulative(cumulative_float, scale, free_weight) + accumulated_slack;
         cumulative_float = cumulative_float + *probability_float;
         accumulated_slack = accumulated_slack.wrapping_add(&Probability::one());
         left_cumulative
@@ -64,6 +65,26 @@ fn all_finite_and_nonnegative<F: FloatCore>(probabilities: &[F]) -> bool {
     probabilities
         .iter()
         .all(|probability| *probability >= F::zero() && probability.is_finite())
+}
+
+/// Maps a (floating point) cumulative to fixed point, before adding the slack.
+///
+/// Used by both the eager and the lazy categorical models so that they round identically.
+/// The result is capped at `free_weight` because, due to rounding errors (or a too small
+/// `normalization` provided by the caller), `cumulative_float * scale` can exceed
+/// `free_weight`, which would otherwise lead to a zero or wrapped-around probability for
+/// the last symbols.
+#[inline(always)]
+fn scaled_cumulative<Probability, F>(
+    cumulative_float: F,
+    scale: F,
+    free_weight: Probability,
+) -> Probability
+where
+    F: FloatCore + AsPrimitive<Probability>,
+    Probability: BitArray,
+{
+    core::cmp::min((cumulative_float * scale).as_(), free_weight)
 }
 
 fn perfectly_quantized_probabilities<Probability, F, const PRECISION: usize>(
